@@ -132,8 +132,17 @@ def run_check(pid, main, argv=None):
         main(chk, a)
         rc = chk.finish(getattr(main, 'level', 'model_checking'))
     except MachineryError as e:
-        print(f'MACHINERY-FAILURE property={pid}: {e}', file=sys.stderr, flush=True)
-        rc = 2
+        from . import gen as _gen
+        if _gen.IMPORT_MARKER in str(e):
+            # a driver died because the emitted library does not import: that is the generator's doing (no call can be made
+            # through a library that does not import), reported as a violation of the property under check
+            line = [l for l in str(e).splitlines() if _gen.IMPORT_MARKER in l][0]
+            chk.case('emitted-library-import', nontrivial=True)
+            chk.violation('emitted-library-import', 'a driver could not start: ' + line[:400], dict(error=str(e)[-3000:]))
+            rc = chk.finish(getattr(main, 'level', 'model_checking'))
+        else:
+            print(f'MACHINERY-FAILURE property={pid}: {e}', file=sys.stderr, flush=True)
+            rc = 2
     except Exception:
         traceback.print_exc()
         print(f'MACHINERY-FAILURE property={pid}: unexpected exception', file=sys.stderr, flush=True)
